@@ -17,7 +17,9 @@ import (
 	"fmt"
 	"os"
 	"path/filepath"
+	"regexp"
 	"sort"
+	"strconv"
 	"strings"
 
 	"github.com/hashicorp/hcl/v2"
@@ -40,6 +42,7 @@ type runner struct {
 	rep                  *hv.Report
 	cfTrav, cfParts, cfT *hv.CaseFile
 	nTrav, nParts, nT    int
+	idxTrav, idxParts, idxT []string // printable inputs per family; concatenated into report.case_index at the end
 	g                    *gen
 	nameTable            map[string]string
 }
@@ -176,7 +179,7 @@ func (x *runner) travCase(expr hclsyntax.Expression, text, wrap string, ctx *hcl
 		return
 	}
 	x.cfTrav.Add(fmt.Sprintf("mkTC %s\n  %s %s\n  %s\n  %d %s %s", es, ts, hv.CoqStr(kw), ctxS, mode, tvS, tdS))
-	x.rep.Idx(fmt.Sprintf("c20trav[%d] (%s) %s", x.nTrav, wrap, text))
+	x.idxTrav = append(x.idxTrav, fmt.Sprintf("c20trav (%s) %s", wrap, text))
 	x.nTrav++
 	x.rep.Count("trav|"+text+"|"+wrap+"|"+ctxS, trav != nil && len(trav) > 1)
 	if len(text) < 60 && trav != nil && len(trav) > 2 {
@@ -586,7 +589,7 @@ func (x *runner) partsCase(e hclsyntax.Expression, text string, ctx *hcl.EvalCon
 		return
 	}
 	x.cfParts.Add(fmt.Sprintf("mkPC %s\n  %s\n  %s\n  %s", es, ls, ms, cs))
-	x.rep.Idx(fmt.Sprintf("c20parts[%d] %s", x.nParts, text))
+	x.idxParts = append(x.idxParts, "c20parts "+text)
 	x.nParts++
 	x.rep.Count("parts|"+text+"|"+hv.CoqCtx(ctx, &hv.ValInfo{}), nontrivial)
 }
@@ -725,7 +728,7 @@ func namesComparable(ty cty.Type) bool {
 			return
 		}
 		if hclsyntax.ValidIdentifier(n) {
-			ok = false // BOM + identifier: printed bare
+			ok = false // (before /repo 470ca2c: BOM + identifier was printed bare)
 			return
 		}
 		for _, b := range []byte(n) {
@@ -855,7 +858,7 @@ func (x *runner) getTypeCase(e hclsyntax.Expression, label string) {
 			x.rep.Hist("gettype:ok")
 		}
 		x.cfT.Add(fmt.Sprintf("TGet %s %s\n  %s %s %s", hv.CoqBool(constraint), es, hv.CoqType(ty), hv.CoqZList(typeDiags(ds)), hv.CoqBool(hasOptional(ty))))
-		x.rep.Idx(fmt.Sprintf("c20type[%d] TGet constraint=%v %s", x.nT, constraint, label))
+		x.idxT = append(x.idxT, fmt.Sprintf("c20type TGet constraint=%v %s", constraint, label))
 		x.nT++
 	}
 }
@@ -1028,7 +1031,7 @@ func (x *runner) typeCase(ty cty.Type) {
 	}
 	// Coq cases
 	x.cfT.Add(fmt.Sprintf("TString %s %s", hv.CoqType(ty), hv.Hexs([]byte(s))))
-	x.rep.Idx(fmt.Sprintf("c20type[%d] TString %s", x.nT, s))
+	x.idxT = append(x.idxT, "c20type TString "+s)
 	x.nT++
 	e, pd := hclsyntax.ParseExpression([]byte(s), "t.hcl", hcl.InitialPos)
 	ast := "None"
@@ -1038,7 +1041,7 @@ func (x *runner) typeCase(ty cty.Type) {
 	}
 	if !info.Unsupported {
 		x.cfT.Add(fmt.Sprintf("TExpr %s %s %s\n  %s", hv.CoqType(ty), hv.CoqBool(ident), hv.CoqBool(namesComparable(ty)), ast))
-		x.rep.Idx(fmt.Sprintf("c20type[%d] TExpr %s", x.nT, s))
+		x.idxT = append(x.idxT, "c20type TExpr "+s)
 		x.nT++
 	}
 	if !pd.HasErrors() {
@@ -1317,17 +1320,44 @@ func run(cfg *hv.RunCfg) error {
 	return x.finish(cfg)
 }
 
+var baseIndexRe = regexp.MustCompile(`Definition base_index : Z := (\d+)\.`)
+
 func (x *runner) finish(cfg *hv.RunCfg) error {
+	// The three families share report.case_index: trav cases first, then parts, then type.
+	// base_index in every case file is made GLOBAL (hv.CaseFile numbers each family from 0),
+	// so an index printed in `bad` is an index into case_index.
 	names := []string{}
+	offset := 0
 	for _, pc := range []struct {
 		cf  *hv.CaseFile
 		per int
-	}{{x.cfTrav, 400}, {x.cfParts, 600}, {x.cfT, 1500}} {
+		idx []string
+	}{{x.cfTrav, 400, x.idxTrav}, {x.cfParts, 600, x.idxParts}, {x.cfT, 1500, x.idxT}} {
 		n, err := pc.cf.Flush(pc.per)
 		if err != nil {
 			return err
 		}
+		for _, name := range n {
+			path := filepath.Join(cfg.Out, name)
+			b, err := os.ReadFile(path)
+			if err != nil {
+				return err
+			}
+			m := baseIndexRe.FindSubmatch(b)
+			if m == nil {
+				return fmt.Errorf("%s: no base_index", name)
+			}
+			local, _ := strconv.Atoi(string(m[1]))
+			b = baseIndexRe.ReplaceAll(b, []byte(fmt.Sprintf("Definition base_index : Z := %d.", local+offset)))
+			if err := os.WriteFile(path, b, 0o644); err != nil {
+				return err
+			}
+		}
 		names = append(names, n...)
+		for _, s := range pc.idx {
+			x.rep.Idx(s)
+		}
+		offset += len(pc.idx)
 	}
 	x.rep.CaseFiles = names
 	keys := make([]string, 0, len(x.nameTable))
